@@ -383,6 +383,84 @@ fn refs_serialized_as() -> Option<String> {
         })
 }
 
+// ---------------------------------------------------------------- C01 / C02: wire names are carried by the generated definitions
+const WIRE_LANGS: [&str; 6] = ["typescript", "kotlin", "swift", "scala", "go", "python"];
+fn generate_lang(lang: &str, src: &str) -> Result<String, String> {
+    use std::collections::{BTreeMap, HashMap};
+    use typeshare_core::language::{Go, Kotlin, Language, Python, Scala, Swift, TypeScript};
+    let d = parse_named(src, "f.rs").ok_or("no parsed data")?;
+    if !d.errors.is_empty() { return Err(format!("{} parse errors", d.errors.len())); }
+    let mut crates: BTreeMap<CrateName, ParsedData> = BTreeMap::new();
+    let cn = d.crate_name.clone();
+    *crates.entry(cn.clone()).or_default() += d;
+    typeshare_core::reconcile::reconcile_aliases(&mut crates);
+    let data = crates.remove(&cn).unwrap();
+    let mut out: Vec<u8> = Vec::new();
+    let mut l: Box<dyn Language> = match lang {
+        "typescript" => Box::new(TypeScript { no_version_header: true, ..Default::default() }),
+        "kotlin" => Box::new(Kotlin { package: "p".into(), no_version_header: true, ..Default::default() }),
+        "swift" => Box::new(Swift { no_version_header: true, ..Default::default() }),
+        "scala" => Box::new(Scala { package: "p".into(), no_version_header: true, ..Default::default() }),
+        "go" => Box::new(Go { package: "p".into(), no_version_header: true, ..Default::default() }),
+        _ => Box::new(Python { no_version_header: true, ..Default::default() }),
+    };
+    l.generate_types(&mut out, &HashMap::new(), data).map_err(|e| e.to_string())?;
+    String::from_utf8(out).map_err(|e| e.to_string())
+}
+/// the key occurs in the output as a whole token: quoted, or as an identifier not glued to other identifier characters
+fn carries(out: &str, key: &str) -> bool {
+    let b = out.as_bytes();
+    let mut from = 0;
+    while let Some(i) = out[from..].find(key) {
+        let (s, e) = (from + i, from + i + key.len());
+        let ok_l = s == 0 || !(b[s - 1].is_ascii_alphanumeric() || b[s - 1] == b'_');
+        let ok_r = e >= b.len() || !(b[e].is_ascii_alphanumeric() || b[e] == b'_');
+        if ok_l && ok_r { return true; }
+        from = s + 1;
+    }
+    false
+}
+const WIRE_RULES: [&str; 9] = ["", "lowercase", "UPPERCASE", "PascalCase", "camelCase", "snake_case", "SCREAMING_SNAKE_CASE", "kebab-case", "SCREAMING-KEBAB-CASE"];
+const WIRE_FIELDS: [&str; 6] = ["id", "user_name", "r#type", "a1", "x_y_z", "is_ok"];
+const WIRE_VARIANTS: [&str; 4] = ["Active", "InProgress", "HttpError", "V2"];
+fn serde_name(rule: &str, pos: &str, ident: &str) -> String { serde_rename(rule, pos, ident).unwrap_or_else(|_| ident.to_string()) }
+/// kind 0: struct fields (C01), 1: struct-variant fields under a variant-level rename_all (C01), 2: unit enum (C02), 3: adjacently tagged enum (C02)
+fn wire_case(kind: usize, rule: &str, lang: &str) -> Option<String> {
+    let ra = if rule.is_empty() { String::new() } else { format!("#[serde(rename_all = \"{}\")]\n", rule) };
+    let mut expect: Vec<(String, String)> = vec![]; // (what, key)
+    let src = match kind {
+        0 => {
+            for f in WIRE_FIELDS { expect.push((format!("field {}", f), serde_name(rule, "field", f))); }
+            expect.push(("field other_field with serde(rename = \"custom-key\")".into(), "custom-key".into()));
+            expect.push(("field second with serde(rename = \"renamed_field\")".into(), "renamed_field".into()));
+            format!("#[typeshare]\n{}pub struct Rec {{ {} #[serde(rename = \"custom-key\")] pub other_field: bool, #[serde(rename = \"renamed_field\")] pub second: bool }}\n", ra, WIRE_FIELDS.iter().map(|f| format!("pub {}: u32, ", f)).collect::<String>())
+        }
+        1 => {
+            for f in WIRE_FIELDS { expect.push((format!("struct-variant field {}", f), serde_name(rule, "field", f))); }
+            format!("#[typeshare]\n#[serde(tag = \"kind\", content = \"payload\")]\npub enum Msg {{ {}Moved {{ {} }}, Quit }}\n", ra.replace("\n", " "), WIRE_FIELDS.iter().map(|f| format!("{}: u32, ", f)).collect::<String>())
+        }
+        2 => {
+            for v in WIRE_VARIANTS { expect.push((format!("variant {}", v), serde_name(rule, "variant", v))); }
+            expect.push(("variant Odd with serde(rename = \"custom-variant\")".into(), "custom-variant".into()));
+            format!("#[typeshare]\n{}pub enum Mode {{ {} #[serde(rename = \"custom-variant\")] Odd }}\n", ra, WIRE_VARIANTS.iter().map(|v| format!("{}, ", v)).collect::<String>())
+        }
+        _ => {
+            for v in WIRE_VARIANTS { expect.push((format!("variant {}", v), serde_name(rule, "variant", v))); }
+            expect.push(("content key".into(), "payload_key".into()));
+            if ["typescript", "swift", "go", "python"].contains(&lang) { expect.push(("tag key".into(), "kind_key".into())); }
+            let rule_attr = if rule.is_empty() { String::new() } else { format!(", rename_all = \"{}\"", rule) };
+            format!("#[typeshare]\n#[serde(tag = \"kind_key\", content = \"payload_key\"{})]\npub enum Msg {{ Active(String), InProgress, HttpError {{ code: u32 }}, V2(u32) }}\n", rule_attr)
+        }
+    };
+    let s2 = src.clone(); let l2 = lang.to_string();
+    let out = match panic::catch_unwind(move || generate_lang(&l2, &s2)) { Ok(Ok(o)) => o, Ok(Err(e)) => return Some(format!("generation failed: {}", e)), Err(_) => return Some("generation panicked".into()) };
+    for (what, key) in expect {
+        if lang == "scala" && key.contains('-') { continue; } // Scala carries no key binding: only keys usable as identifiers are in scope
+        if !carries(&out, &key) { return Some(format!("{} output does not carry the wire name `{}` of {} (serde uses that key)", lang, key, what)); }
+    }
+    None
+}
+
 fn permutations(n: usize) -> Vec<Vec<usize>> {
     if n == 0 { return vec![vec![]]; }
     let mut out = vec![];
@@ -486,6 +564,22 @@ fn main() {
                     if let Some(m) = tos_case(cfgs, ts, p) { report(i, t, p, m); } }
             } }
             println!("no failing input among {} (cfg attribute set, target list, placement) triples: {} attribute sets up to depth 3", tried, all.len());
+            std::process::exit(0);
+        }
+        Some("wire-search") | Some("wire-check") => {
+            let report = |kind: usize, r: usize, l: usize, m: String| { println!("WITNESS {{\"input\": {{\"kind\": {}, \"rule\": {}, \"lang\": {}, \"rule_text\": {:?}, \"lang_text\": {:?}}}, \"fails\": {:?}}}", kind, r, l, WIRE_RULES[r], WIRE_LANGS[l], m); std::process::exit(1); };
+            if a[1] == "wire-check" {
+                let (kind, r, l): (usize, usize, usize) = (a[2].parse().unwrap(), a[3].parse().unwrap(), a[4].parse().unwrap());
+                if let Some(m) = wire_case(kind, WIRE_RULES[r], WIRE_LANGS[l]) { report(kind, r, l, m); }
+                println!("input passes"); std::process::exit(0);
+            }
+            let kinds: Vec<usize> = match a.get(2).map(|s| s.as_str()) { Some("C01") => vec![0, 1], Some("C02") => vec![2, 3], _ => vec![0, 1, 2, 3] };
+            let mut tried = 0;
+            for kind in kinds { for r in 0..WIRE_RULES.len() { for l in 0..WIRE_LANGS.len() {
+                tried += 1;
+                if let Some(m) = wire_case(kind, WIRE_RULES[r], WIRE_LANGS[l]) { report(kind, r, l, m); }
+            } } }
+            println!("no failing input among {} (shape, rename_all rule, language) generations; every expected serde key must occur as a whole token", tried);
             std::process::exit(0);
         }
         Some("refs-search") | Some("refs-check") => {
